@@ -26,6 +26,8 @@ import GunYu.Proofs.TxnShape
 import GunYu.Proofs.ResumeDb
 import GunYu.Proofs.Parser
 import GunYu.Proofs.Restart
+import GunYu.Proofs.ResumedDb
+import GunYu.Proofs.ResumedWire
 
 namespace GunYu.Props.C02
 open GunYu GunYu.Sender GunYu.Target
@@ -465,6 +467,157 @@ theorem crash_resume_db (c : SCfg) (evs : List Ev) (hm : SMono initS.txn initS.l
   subst hsplit
   exact resume_db_unique E1 E2 o t hfresh hsortedE (-1) hlow hlast
 
+/-! ### The same on a target that already holds records of earlier runs -/
+
+/-- what the wire of a RESUMED run looks like (the hypotheses of
+    `Target.resumed_unique_max`), for the real parser's items: keys ordered, every
+    stored position at or above the start, and the commands begin with the initial
+    `select <startDbId>` carrying the start offset (when `startDbId > 0`; if
+    nothing was forwarded yet, no position was written either), everything else
+    ends above the start. -/
+theorem resumed_wire (c : SCfg) (pc : PCfg) (raws : List Raw) (start : Int) (evs : List Ev)
+    (hitems : itemsOf evs = parserItems pc start raws)
+    (hraw : (raws.map (·.off)).Pairwise (· < ·)) (hlo : ∀ r ∈ raws, start < r.off)
+    (hstart : 0 ≤ start) :
+    (keysB (bodies (run c initS evs).2)).Pairwise (· ≤ ·) ∧
+    (∀ o ∈ cpOffsetsB (bodies (run c initS evs).2), start ≤ o) ∧
+    (if 0 < pc.startDbId then
+        (dataBO (bodies (run c initS evs).2) = [] ∧ cpOffsetsB (bodies (run c initS evs).2) = []) ∨
+        (∃ rest, dataBO (bodies (run c initS evs).2) = (bSelect, [intToDec pc.startDbId], start) :: rest ∧
+          ∀ x ∈ rest, start < x.2.2)
+      else ∀ x ∈ dataBO (bodies (run c initS evs).2), start < x.2.2) := by
+  have hwf := run_wf c initS evs
+  have hm := resumed_parser_feeds_smono pc raws start evs hitems hraw hlo hstart
+  have hbase := parseAll_itemsMono pc raws { lastSent := start }
+  rw [cpOffsetsB_bodies _ hwf, dataBO_bodies _ hwf, keys_bodies _ hwf]
+  -- conservation, on the schedule up to `done`
+  have hcons := run_dataO c initS (cut evs)
+  rw [← run_cut, fwdO_cut_items] at hcons
+  have hq0 : qdO initS = [] := rfl
+  rw [hq0, List.nil_append] at hcons
+  have ht0 : initS.txn = Txn.no := rfl
+  rw [ht0] at hcons
+  have hpre := itemsOf_cut_prefix evs
+  rw [hitems] at hpre
+  have horigin := run_cp_origin c initS evs
+  have hcpcut := run_cp_origin c initS (cut evs)
+  rw [← run_cut] at hcpcut
+  -- stored positions are item offsets, and those are at or above the start
+  have hge : ∀ o ∈ cpOffsets (run c initS evs).2, start ≤ o := by
+    intro o ho
+    rcases horigin o ho with ⟨he, hp⟩ | ⟨i, hi, he⟩
+    · simp only [initS] at he; omega
+    · rw [hitems] at hi
+      unfold parserItems at hi
+      rcases List.mem_append.mp hi with h1 | h2
+      · split at h1
+        · simp only [List.mem_singleton] at h1; subst h1; simp [selectItem, he]
+        · cases h1
+      · have := itemsMono_ge (hbase .no rfl hraw hlo) i h2
+        simp only at this; omega
+  refine ⟨wire_ordered c evs hm, hge, ?_⟩
+  · unfold parserItems at hpre
+    split
+    · rename_i hpos
+      simp only [hpos, ↓reduceIte, List.singleton_append] at hpre
+      -- the items consumed: none, or the initial select and a prefix of the parser's
+      cases hi' : itemsOf (cut evs) with
+      | nil =>
+        left
+        rw [hi'] at hcons
+        simp only [fwdItemsO] at hcons
+        refine ⟨(List.append_eq_nil_iff.mp hcons).1, ?_⟩
+        apply List.eq_nil_iff_forall_not_mem.mpr
+        intro o ho
+        rcases hcpcut o ho with ⟨he, hp⟩ | ⟨i, hi, _⟩
+        · simp only [initS] at he; omega
+        · rw [hi'] at hi; cases hi
+      | cons it more =>
+        rw [hi'] at hpre hcons
+        obtain ⟨hit, hmore⟩ := List.cons_prefix_cons.mp hpre
+        subst hit
+        have hsp : bSelect ≠ bPing := by decide
+        have hF : fwdItemsO Txn.no (selectItem pc.startDbId start :: more) =
+            (bSelect, [intToDec pc.startDbId], start) :: fwdItemsO Txn.barrier more := by
+          simp [fwdItemsO, fwd1O, selectItem, hsp, txnStatus, cmdClass, forwards]
+        rw [hF] at hcons
+        have habove : ∀ x ∈ fwdItemsO Txn.barrier more, start < x.2.2 :=
+          fwdItemsO_above _ _ _ (itemsMono_prefix (hbase Txn.barrier rfl hraw hlo) hmore)
+        cases hd : dataOutO (run c initS evs).2 with
+        | nil =>
+          left
+          refine ⟨rfl, ?_⟩
+          rw [hd, List.nil_append] at hcons
+          -- the select is still queued: every stored position is below it
+          obtain ⟨i, hi, hio⟩ := qdO_mem_offset (s := (run c initS evs).1)
+            (x := (bSelect, [intToDec pc.startDbId], start)) (by rw [hcons]; exact List.mem_cons_self ..)
+          apply List.eq_nil_iff_forall_not_mem.mpr
+          intro o ho
+          have h1 := pending_not_covered c evs hm o ho i hi
+          have h2 : start ≤ o := hge o ho
+          simp only at hio
+          omega
+        | cons x xs =>
+          right
+          rw [hd, List.cons_append] at hcons
+          injection hcons with hx hxs
+          refine ⟨xs, by rw [hx], ?_⟩
+          intro y hy
+          exact habove y (by rw [← hxs]; exact List.mem_append_left _ hy)
+    · rename_i hpos
+      simp only [hpos, ↓reduceIte, List.nil_append] at hpre
+      intro x hx
+      have habove : ∀ x ∈ fwdItemsO Txn.no (itemsOf (cut evs)), start < x.2.2 :=
+        fwdItemsO_above _ _ _ (itemsMono_prefix (hbase Txn.no rfl hraw hlo) hpre)
+      exact habove x (by rw [← hcons]; exact List.mem_append_left _ hx)
+
+/-- **The next start resumes in the database the position was written in -- on ANY
+    target, at ANY restart.** Let the target hold records of earlier runs with the
+    largest offset `start` in exactly one database `startDbId` (`UniqueMax`: what
+    `StartPoint` read; a target without records is `crash_resume_db`), let the run
+    be resumed from there (the real parser's items for any stream above `start`,
+    any configuration, any schedule, on a new connection), and let the target die
+    after ANY number `k` of its requests. Then either no position was written and
+    every stored offset is what it was, or the last position write `o ≥ start` sits
+    in the database the connection was in at that write and every other database
+    holds a strictly smaller offset: `UniqueMax` again. By induction over restarts
+    `GetCheckpoint` therefore never faces a tie, and the database it reports is
+    the one the position was written in. -/
+theorem crash_resume_db_resumed (c : SCfg) (pc : PCfg) (raws : List Raw) (start : Int) (evs : List Ev)
+    (hitems : itemsOf evs = parserItems pc start raws)
+    (hraw : (raws.map (·.off)).Pairwise (· < ·)) (hlo : ∀ r ∈ raws, start < r.off)
+    (hstart : 0 ≤ start) (hdb : 0 ≤ pc.startDbId)
+    (t : TState) (hq : t.queued = none) (hcur : t.cur = 0)
+    (hu : UniqueMax t.cps pc.startDbId start) (k : Nat) :
+    ∃ E, E <+: bodies (run c initS evs).2 ∧
+      SameData (applyLog t ((run c initS evs).2.flatten.take k)) (E.foldl execReq t) ∧
+      ((cpOffsetsB E = [] ∧
+          ∀ d, (getCp (applyLog t ((run c initS evs).2.flatten.take k)).cps d).offset
+            = (getCp t.cps d).offset) ∨
+       (∃ E1 o E2, E = E1 ++ Req.cpOffset o :: E2 ∧ cpOffsetsB E2 = [] ∧ start ≤ o ∧
+          UniqueMax (applyLog t ((run c initS evs).2.flatten.take k)).cps
+            (E1.foldl execReq t).cur o)) := by
+  obtain ⟨E, hE, hsame⟩ := crash_executes_body_prefix (run c initS evs).2 (run_wf c initS evs) t hq k
+  obtain ⟨hs, hcp, hdata⟩ := resumed_wire c pc raws start evs hitems hraw hlo hstart
+  refine ⟨E, hE, hsame, ?_⟩
+  rw [hsame.2]
+  exact resumed_unique_max _ t pc.startDbId start hu hcur hdb hs hcp hdata E hE
+
+/-- the unique maximum is preserved in both cases of `crash_resume_db_resumed`:
+    whatever the crash point, the next `GetCheckpoint` finds exactly one database -/
+theorem resumed_crash_keeps_unique_max (c : SCfg) (pc : PCfg) (raws : List Raw) (start : Int)
+    (evs : List Ev) (hitems : itemsOf evs = parserItems pc start raws)
+    (hraw : (raws.map (·.off)).Pairwise (· < ·)) (hlo : ∀ r ∈ raws, start < r.off)
+    (hstart : 0 ≤ start) (hdb : 0 ≤ pc.startDbId)
+    (t : TState) (hq : t.queued = none) (hcur : t.cur = 0)
+    (hu : UniqueMax t.cps pc.startDbId start) (k : Nat) :
+    ∃ d o, start ≤ o ∧ UniqueMax (applyLog t ((run c initS evs).2.flatten.take k)).cps d o := by
+  obtain ⟨E, _, _, h⟩ := crash_resume_db_resumed c pc raws start evs hitems hraw hlo hstart hdb t hq hcur hu k
+  rcases h with ⟨_, hsame⟩ | ⟨E1, o, E2, _, _, ho, hum⟩
+  · exact ⟨pc.startDbId, start, Int.le_refl _,
+      by rw [hsame]; exact hu.1, fun d' hd' o' h' => hu.2 d' hd' o' (by rw [← hsame]; exact h')⟩
+  · exact ⟨_, o, ho, hum⟩
+
 /-- the checkpoint offset is written into the database the connection is in -/
 theorem cp_lands_in_current_db (t : TState) (o : Int) :
     (getCp (execReq t (.cpOffset o)).cps t.cur).offset = some o ∧
@@ -556,5 +709,37 @@ example : rsPc.startDbId = (seqApplied 0 (itemCmds (parseAll rsPc {} (rsPre ++ [
   decide +kernel
 example : (seqApplied 0 (itemCmds (parserItems rsPc 50 rsRest))).2 =
     [ { db := 5, name := [100,101,108], args := [[98]] } ] := by decide +kernel
+
+/-! Non-vacuity of `crash_resume_db_resumed`: a target holding records of earlier
+    runs (largest offset 50 in database 5, an older 23 in database 0), a run resumed
+    from there whose stream moves on to database 7: the hypotheses hold, and after
+    the crash the largest offset (119) sits in database 7 only. -/
+def rdPc : PCfg :=
+  { filterDb := fun d => d == 1, filterCmd := fun _ => false, filterCmdKey := fun _ a => some a,
+    targetDb := -1, dbMap := [(2, 5), (3, 7)], startDbId := 5 }
+def rdRaws : List Raw :=
+  [ { cmd := [115,101,116], args := [[97],[49]], off := 73 },      -- set a 1   (db 5)
+    { cmd := bSelect, args := [[51]], off := 96 },                  -- SELECT 3 (→ 7)
+    { cmd := [115,101,116], args := [[98],[50]], off := 119 } ]     -- set b 2   (db 7)
+def rdCfg : SCfg := { txnMode := false, resume := true, batchCount := 2, batchBytes := 1000 }
+def rdEvs : List Ev := .keepaliveTick :: ((parserItems rdPc 50 rdRaws).map Ev.item ++ [.cpTick, .done])
+def rdT : TState := { cps := [(5, { offset := some 50, hasRunId := true }), (0, { offset := some 23, hasRunId := true })] }
+example : itemsOf rdEvs = parserItems rdPc 50 rdRaws := by decide +kernel
+example : UniqueMax rdT.cps rdPc.startDbId 50 := by
+  refine ⟨by decide +kernel, ?_⟩
+  intro d' hd' o' h
+  by_cases h0 : d' = 0
+  · subst h0; have : o' = 23 := by simpa [getCp, rdT, List.lookup] using h.symm
+    omega
+  · exfalso
+    have h5 : (d' == 5) = false := by simpa [rdPc] using hd'
+    have h0' : (d' == 0) = false := by simpa using h0
+    simp [getCp, rdT, List.lookup, h5, h0'] at h
+example : bodies (run rdCfg initS rdEvs).2 =
+      (bodies (run rdCfg initS rdEvs).2).take 7 ++ Req.cpOffset 119 :: [] ∧
+    (((bodies (run rdCfg initS rdEvs).2).take 7).foldl execReq rdT).cur = 7 := by decide +kernel
+example : (applyLog rdT ((run rdCfg initS rdEvs).2.flatten.take 8)).cps =
+    [(7, { offset := some 119, hasRunId := true }), (5, { offset := some 50, hasRunId := true }),
+     (0, { offset := some 23, hasRunId := true })] := by decide +kernel
 
 end GunYu.Props.C02
